@@ -1,7 +1,8 @@
 SPECIFICATION FairSpec
 CONSTANTS MaxN = 2
-          WrapperConsumes = TRUE
-          ReleaseWakesWaiter = TRUE
+          WrapperConsumes = FALSE
+          ReleaseWakesWaiter = FALSE
 INVARIANT TypeOK
 INVARIANT C07_NeverSwallowed
+PROPERTY C07_Answered
 CHECK_DEADLOCK FALSE
